@@ -478,6 +478,23 @@ func vfC08Monitor(l *vfC08Ledger, a vfC08Accept) (string, string) {
 		return "accepted-not-as-sealed:" + a.kind + ":" + d,
 			fmt.Sprintf("%s consumer (domain %q) accepted an envelope whose %s is not what any signer sealed", a.kind, a.dom, d)
 	}
+	// the reported key Equals a signer's key: then it has that signer's peer ID and marshalled form
+	for _, e := range l.entries {
+		if !vfC08KeyEq(a.key, e.pub) {
+			continue
+		}
+		ida, erra := peer.IDFromPublicKey(a.key)
+		ide, erre := peer.IDFromPublicKey(e.pub)
+		if erra != nil || erre != nil || ida != ide || !ide.MatchesPublicKey(a.key) {
+			return "id-not-function-of-key:envelope-key", fmt.Sprintf("the key reported by the %s consumer Equals the signer's key but has peer ID %s instead of %s", a.kind, ida, ide)
+		}
+		ma_, _ := crypto.MarshalPublicKey(a.key)
+		me, _ := crypto.MarshalPublicKey(e.pub)
+		if !bytes.Equal(ma_, me) {
+			return "marshal-not-function-of-key:envelope-key", "the key reported by the consumer Equals the signer's key but marshals to other bytes"
+		}
+		break
+	}
 	// the record handed out is the payload that was sealed
 	switch r := a.rec.(type) {
 	case *peer.PeerRecord:
